@@ -70,12 +70,15 @@ NASTY_NAMES = [
 
 def random_circuit(rng, n_in=3, n_gates=5, types=GATES, max_fanin=3, p_const=0.0,
                    n_bb=0, bb_clk=False, cyclic=0, p_out=0.3, names=None, name="c",
-                   allow_input_output=False, unconnected_pins=0.0, x_const=False):
+                   allow_input_output=False, unconnected_pins=0.0, unconnected_in=0.0, x_const=False):
     """A lint-clean random circuit.  Sources first, then gates in topological
     order (so the graph is a DAG), then `cyclic` extra back-edges into
     multi-input gates (never self-loops).  Flop-like blackboxes: instance ffK
     with bb_input ffK.d driven by a random node (or unconnected), bb_output
-    ffK.q driving a buf qK that is available as a source for the gates."""
+    ffK.q driving a buf qK that is available as a source for the gates.
+    unconnected_pins: probability that a q pin has no load (still lint-clean);
+    unconnected_in: probability that an input pin is undriven (NOT lint-clean
+    under the default flags; only C02/C03 use it)."""
     pool = list(names) if names else None
 
     def nm(default):
@@ -132,7 +135,7 @@ def random_circuit(rng, n_in=3, n_gates=5, types=GATES, max_fanin=3, p_const=0.0
     # connect flop inputs
     for inst, (bbname, pins_in, _) in bbs.items():
         for p in pins_in:
-            if rng.random() >= unconnected_pins:
+            if rng.random() >= unconnected_in:
                 if p == "clk" and nodes[0][1] == "input":
                     edges.append([nodes[0][0], f"{inst}.{p}"])
                 else:
